@@ -202,6 +202,11 @@ func (p *currentToRepoPatternConverter) Convert(filename string) string {
 	if st, err := os.Stat(filename); err == nil && st.IsDir() {
 		pattern += "/"
 	}
+	// A directory named with its trailing slash already ends in one; a
+	// doubled slash would make the pattern match nothing.
+	for strings.HasSuffix(pattern, "//") {
+		pattern = strings.TrimSuffix(pattern, "/")
+	}
 	if strings.HasPrefix(pattern, "./") {
 		pattern = pattern[2:]
 		if len(pattern) == 0 {
